@@ -128,6 +128,8 @@ def judge(drvb, args, files, o, stdin_data=b'STDIN-DATA'):
         return probs, 'usage'
     if o.timeout:
         return [('hang', 'driver did not finish within the watchdog')], 'run'
+    if m['collision']:
+        return [], 'self-overwriting'
     if o.status != 0:
         probs.append(('status', 'valid command line exits with status %s signal %s: %s' % (o.status, o.signal, o.stderr[:200].decode('latin-1'))))
         return probs, 'run'
@@ -293,6 +295,9 @@ def run(tier):
     for lst in common.pmap(_worker, work):
         for rec in lst:
             ck.evaluations += 1
+            if rec['kind'] == 'self-overwriting':
+                ck.skip('outputs-overwrite-each-other-or-an-input')
+                continue
             ck.decided += 1
             ck.count('kind', rec['kind'])
             ck.count('target', rec['triple'])
